@@ -10,6 +10,7 @@ from ..core import (AnalysisError, call_name, const, dotted, is_const, kwarg, lo
 from ..facts import default_of, guards_of, returns_of, enclosing_loops, assigned_subscripts
 from ..rules.nonmut import mutations
 from ..shape import walk_paths
+from ..pattern import pmatch, pfind
 
 CONV = "synkit/IO/chem_converter.py"
 N2G = "synkit/IO/nx_to_gml.py"
@@ -46,6 +47,7 @@ def run(rep):
     rep.run(producers)
     rep.run(mol_graph)
     rep.run(hydrogens)
+    rep.run(implicit_h)
     rep.run(gml_reader)
 
 
@@ -391,6 +393,55 @@ def hydrogens(rep):
     lps = enclosing_loops(pm, rm[0], im.node) if rm else []
     ok = len(rm) == 1 and norm(rm[0].args[0]) == "h" and len(lps) == 1 and norm(lps[0].iter) == "h_nodes" and not guards_of(pm, rm[0], lps[0])
     rep.ob("O10.4", "R15", im, ok, rm[0] if rm else "remove_node", "every collected hydrogen atom is removed")
+
+
+def implicit_h(rep, oid="O10.4"):
+    """implicit_hydrogen: hcount = explicit + implicit, minus ONE per preserved hydrogen, non-preserved hydrogens removed"""
+    fi = rep.f(HY, "implicit_hydrogen")
+    pm = parent_map(fi.node)
+    defs = local_defs(fi.node)
+    decs = [n for n in walk_local(fi.node) if isinstance(n, ast.AugAssign) and isinstance(n.op, ast.Sub) and pmatch("$g.nodes[$x]['hcount']", n.target) is not None]
+    if not decs:
+        rep.ob(oid, "R15", fi, False, "no `hcount -= 1` for preserved hydrogens", "an explicit hydrogen that stays explicit must not also be counted in its heavy atom's hcount", node=fi.node)
+    for d in decs:
+        b = pmatch("$g.nodes[$x]['hcount']", d.target)
+        lps = enclosing_loops(pm, d, fi.node)
+        ok = None
+        why = ""
+        if is_const(d.value, 1) and lps:
+            inner = lps[0]
+            m1 = pmatch("$g.neighbors($h)", inner.iter, {"g": b["g"]})
+            if m1 and norm(inner.target) == b["x"] and len(lps) >= 2 and norm(lps[1].target) == m1["h"]:
+                src = origin(defs, lps[1].iter)
+                ok = True
+                why = f"one decrement per (preserved hydrogen, neighbour) pair: for {m1['h']} in {norm(lps[1].iter)}: for {b['x']} in neighbors({m1['h']})"
+            else:
+                src = origin(defs, inner.iter)
+                if isinstance(src, (ast.SetComp, ast.Set)) or (isinstance(src, ast.Call) and isinstance(src.func, ast.Name) and src.func.id in ("set", "frozenset")):
+                    ok = False
+                    why = f"`{b['x']}` runs over a SET of heavy atoms: an atom carrying two preserved hydrogens is decremented only once"
+                else:
+                    ok = None
+                    why = "decrement loop shape not recognised"
+        rep.ob(oid, "R15", fi, ok, d, "hcount is reduced by exactly one for every preserved explicit hydrogen bonded to the atom (" + why + ")", node=d)
+        gs = [norm(t).replace(" ", "") for t, s_ in guards_of(pm, d, fi.node) if s_]
+        rep.ob(oid, "R15", fi, any("['element']!='H'" in g_ for g_ in gs) if ok else None, f"guards {gs}", "only heavy neighbours are adjusted", node=d)
+    first = pfind("$g.nodes[$n]['hcount'] = $a + $b", fi.node)
+    okf = False
+    if first:
+        st, b = first[0]
+        ea = origin(defs, ast.Name(id=b["a"], ctx=ast.Load()))
+        eb = origin(defs, ast.Name(id=b["b"], ctx=ast.Load()))
+        texts = {norm(ea).replace(" ", ""), norm(eb).replace(" ", "")}
+        okf = any(t.startswith("sum((1for") and "['element']=='H'" in t and f".neighbors({b['n']})" in t for t in texts) and any(t.endswith("['hcount']") for t in texts)
+    rep.ob(oid, "R15", fi, okf if first else None, first[0][0] if first else "hcount = explicit + implicit", "every heavy atom's hcount first becomes (explicit hydrogen neighbours) + (implicit count)")
+    rm = pfind("$g.remove_nodes_from($l)", fi.node)
+    okr = False
+    if rm:
+        src = origin(defs, ast.Name(id=rm[0][1]["l"], ctx=ast.Load()))
+        t = norm(src).replace(" ", "")
+        okr = isinstance(src, ast.ListComp) and "['element']=='H'" in t and "notin" in t
+    rep.ob(oid, "R15", fi, okr if rm else False, rm[0][0] if rm else "remove_nodes_from", "exactly the hydrogens that are not preserved are removed")
 
 
 def gml_reader(rep):
